@@ -105,6 +105,23 @@ def structured_source(quick):
         ("string-repeat-huge", b'needs std.string\nstring.repeat("ab", 100000000000)'), ("vec-reserve-huge", b"let v = Vec[1]\nv.reserve(100000000000)\n1"),
         ("open-paren-at-eof", b"("), ("open-call-at-eof", b"f("), ("open-bracket-at-eof", b"Array["), ("open-brace-at-eof", b"if true {"),
         ("open-index-at-eof", b"a["), ("open-if-at-eof", b"let a = 1\nif "), ("operator-at-eof", b"1 +"), ("while-at-eof", b"while"),
+        # limits that became diagnostics: jump span > 32767 (E0214), literal > 255 elements, inference depth
+        # top-level bodies; in the debug CLI these take 20 s each (compile time is quadratic in the body), so the quick
+        # tier sends them through the in-process stages only
+        ("long-loop-body", ("let mut s = 0\nlet mut i = 0\nwhile i < 2 {\n" + "s = s + 1\n" * 12000 + "i = i + 1\n}\ns").encode()),
+        ("long-if-body", ("let mut s = 0\nif s == 0 {\n" + "s = s + 1\n" * 12000 + "}\ns").encode()),
+        ("long-fn-body", ("fn f(x) {\nlet mut s = x\n" + "s = s * 3 + x * 7 - s / 2 + (s % 5)\n" * 600 + "return s }\nf(1)").encode()),
+        ("wide-array-255", ("let a = Array[" + ", ".join("1" for _ in range(255)) + "]\na[254]").encode()),
+        ("wide-array-256", ("let a = Array[" + ", ".join("1" for _ in range(256)) + "]\na[255]").encode()),
+        ("wide-array-70000", ("let a = Array[" + ", ".join("1" for _ in range(70000)) + "]\na[0]").encode()),
+        ("wide-vec-300", ("let a = Vec[" + ", ".join("1.5" for _ in range(300)) + "]\na.len()").encode()),
+        ("wide-call-args-254", ("fn f(" + ", ".join(f"p{i}" for i in range(254)) + ") { p0 }\nf(" + ", ".join("1" for _ in range(254)) + ")").encode()),
+        ("wide-call-args-255", ("fn f(a) { a }\nf(" + ", ".join("1" for _ in range(255)) + ")").encode()),
+        ("wide-params-255", ("fn f(" + ", ".join(f"p{i}" for i in range(255)) + ") { p0 }\n1").encode()),
+        ("deep-member-chain", ("let a = 1\n" + "a" + ".b" * 5000).encode()),
+        ("deep-call-chain", ("fn f(x) { x }\nlet r = " + "f(" * 99 + "1" + ")" * 99 + "\nr").encode()),
+        ("long-and-chain", ("let t = true\nt" + " and t" * 20000).encode()),
+        ("long-concat-chain", ('let s = "a"\ns' + ' + "b"' * 5000).encode()),
         ("empty", b""), ("only-newlines", b"\n" * 10000), ("only-semicolons", b";" * 10000),
     ]
     return out
@@ -141,10 +158,21 @@ def mutate_text(r, b):
     return bytes(b)
 
 
+def aasm_chain(n):
+    one = b".function %d\n  .arity 0\n  .registers 1\n  .nested 1\n  .code\n    0000: Return0\n"
+    return b".version 1\n" + b"".join(one % i for i in range(n)) + b".function %d\n  .arity 0\n  .registers 1\n  .code\n    0000: Return0\n" % n
+
+
+def aasm_wide(n):
+    return (b".version 1\n.function 0\n  .arity 0\n  .registers 1\n  .nested %d\n  .code\n    0000: Return0\n" % n
+            + b"".join(b".function %d\n  .code\n    0000: Return0\n" % i for i in range(1, n + 1)))
+
+
 def structured_aasm(seeds):
     hd = b"; x\n.version 1\n.function 0\n  .arity 0\n  .registers 4\n"
     out = [
-        ("aasm-empty", b""), ("aasm-no-function", b".version 1\n"), ("aasm-no-code", hd),
+        ("aasm-empty", b""), ("aasm-no-function", b".version 1\n"), ("aasm-unknown-directive", b".version 1\n.foo 1\n.function 0\n  .code\n    0000: Return0\n"),
+        ("aasm-directive-only", b".foo\n"), ("aasm-stray-tokens", b"1 2 3\n, : @ [ ]\n"), ("aasm-no-code", hd),
         ("aasm-big-register", hd + b"  .code\n    0000: Move r999, r0\n"), ("aasm-jump-far", hd + b"  .code\n    0000: Jump 30000\n    0001: Return0\n"),
         ("aasm-jump-back", hd + b"  .code\n    0000: Jump -30000\n"), ("aasm-undefined-label", hd + b"  .code\n    0000: Jump L9\n"),
         ("aasm-dup-label", hd + b"  .code\n  L0:\n  L0:\n    0000: Return0\n"), ("aasm-loadk-oob", hd + b"  .code\n    0000: LoadK r0, 500\n    0001: Return r0\n"),
@@ -161,6 +189,10 @@ def structured_aasm(seeds):
         ("aasm-long-line", hd + b"  .code\n    0000: Move " + b"r1, " * 20000 + b"\n"), ("aasm-run-off-end", hd + b"  .code\n    0000: LoadI r0, 1\n"),
         ("aasm-bad-utf8", hd + b"  .name \"\xff\xfe\"\n  .code\n    0000: Return0\n"), ("aasm-word", hd + b"  .code\n    0000: .word 0x7d000000\n"),
         ("aasm-makeclosure-oob", hd + b"  .code\n    0000: MakeClosure r0, 9, 9\n    0001: Return r0\n"),
+        ("aasm-nested-chain-64", aasm_chain(64)), ("aasm-nested-chain-65", aasm_chain(65)), ("aasm-nested-chain-1000", aasm_chain(1000)),
+        ("aasm-nested-chain-200000", aasm_chain(200000)), ("aasm-nested-wide", aasm_wide(5000)),
+        ("aasm-nested-count-huge", hd.replace(b".registers 4", b".registers 4\n  .nested 4000000000") + b"  .code\n    0000: Return0\n"),
+        ("aasm-nested-negative", hd.replace(b".registers 4", b".registers 4\n  .nested -5") + b"  .code\n    0000: Return0\n"),
         ("aasm-deep-label-chain", hd + b"  .code\n" + b"".join(b"  L%d:\n    %04d: Jump L%d\n" % (i, i, i + 1) for i in range(3000)) + b"  L3000:\n    3000: Return0\n"),
     ]
     return out + [(f"aasm-seed-{i}", s) for i, s in enumerate(seeds[:6])]
@@ -186,6 +218,8 @@ def structured_avbc(seeds):
         ("avbc-ptr-2pow48", AVBC_HDR + avbc_fn([ret0], consts=b"\x06" + struct.pack("<Q", 1 << 48), nconsts=1)),
         ("avbc-no-code", AVBC_HDR + avbc_fn([])), ("avbc-run-off-end", AVBC_HDR + avbc_fn([1 << 24 | 1])),
         ("avbc-jump-far", AVBC_HDR + avbc_fn([18 << 24 | 0x7fff, ret0])), ("avbc-jump-back", AVBC_HDR + avbc_fn([18 << 24 | 0x8000, ret0])),
+        ("avbc-jumpif-back", AVBC_HDR + avbc_fn([19 << 24 | 0x8000, ret0])), ("avbc-jumpifnot-back", AVBC_HDR + avbc_fn([20 << 24 | 0x8000, ret0])),
+        ("avbc-forloop-back", AVBC_HDR + avbc_fn([41 << 24 | 0x8000, ret0])),
         ("avbc-loadk-oob", AVBC_HDR + avbc_fn([2 << 24 | 0 << 16 | 500, ret0])), ("avbc-reg-oob", AVBC_HDR + avbc_fn([0 << 24 | 200 << 16 | 250 << 8, ret0], regs=1)),
         ("avbc-callglobal-end", AVBC_HDR + avbc_fn([77 << 24])), ("avbc-callmono-garbage", AVBC_HDR + avbc_fn([78 << 24, 0xdeadbeef, 0xffff, ret0])),
         ("avbc-callnative-garbage", AVBC_HDR + avbc_fn([104 << 24, 0xdeadbeef, 0xffff0001, ret0])),
@@ -209,6 +243,11 @@ def structured_avbc(seeds):
         for _ in range(d):
             g = avbc_fn([ret0], nested=g, nnested=1)
         out.append((f"avbc-depth-{d}", AVBC_HDR + g))
+    ret = struct.pack("<I", ret0)
+    pre = struct.pack("<H", 0) + bytes([0, 4]) + struct.pack("<H", 0) + struct.pack("<I", 1) + ret + struct.pack("<H", 1)
+    suf = struct.pack("<H", 0) * 3
+    for d in (100000,):
+        out.append((f"avbc-depth-{d}", AVBC_HDR + pre * d + f + suf * d))
     out.append(("avbc-nested-4096", AVBC_HDR + avbc_fn([ret0], nested=f * 4096, nnested=4096)))
     out.append(("avbc-nested-4097", AVBC_HDR + avbc_fn([ret0], nested=f * 4097, nnested=4097)))
     return out + [(f"avbc-seed-{i}", s) for i, s in enumerate(seeds[:6])]
@@ -395,6 +434,14 @@ def run(ctx):
     ctx.assumptions = ["Gallina functions are total: the totality half of the property cannot be a theorem about the model; it is explored only",
                        "a crash is attributed to the stage that was running when the worker process died"]
     proved = ctx.prove("C07", extracted=["AvbcLayout", "ValueConsts"])
+    try:
+        import json as _json
+        w = _json.load(open(os.path.join(vlib.COQ, "Extracted", "AvbcLayout.warnings.json")))
+    except Exception:
+        w = []
+    ctx.cov["translator_shape_warnings"] = w      # code written differently from what the model's author read; the ties decide
+    if w:
+        ctx.log("translator: shape drift (not an alarm): " + "; ".join(w)[:300])
     if ctx.tier == "thorough" and proved:
         ctx.coqchk("C07")
     quick = ctx.tier == "quick"
@@ -509,11 +556,13 @@ def run(ctx):
                 per_kind[kind] += 1
                 if per_kind[kind] > cap:
                     continue
-            if len(data) > 3000000:
+            if len(data) > 3000000 and not label.startswith("aasm-nested-chain"):
                 continue
             runnable = (o or "") in ("ok", "err:execute", "err:load", "err:assemble", "err:lex", "err:parse", "err:infer", "err:modules", "err:utf8", "err:codegen") or (o or "").startswith(("panic", "crash", "stack-overflow", "alloc-failure"))
             if label in ("infinite-loop", "for-huge-range", "deep-recursion-run"):
                 runnable = False
+            if quick and label in ("long-loop-body", "long-if-body"):
+                continue
             if kind == "manifest":
                 d = os.path.join(wd, f"m{n}")
                 os.makedirs(d, exist_ok=True)
